@@ -423,6 +423,21 @@ def run(run, tier, replay=None):
                 run.violation("harness-error", {"note": "ruff not found on PATH in hook run"}, no_input=True)
             if not hooks and clean:
                 clean_docs += 1
+            if not clean:
+                # the original order has diagnostics: if some OTHER order of the very same document has none, the set of diagnostics (and of
+                # generated classes) depends on the order - that is an order dependence, not an excuse
+                for s in ss:
+                    for vi, (res, tree) in enumerate(results[(di, s, hooks)]):
+                        if vi > 0 and not res["diag"] and not res["exc"] and not (results[(di, s, hooks)][0][0]["exc"]):
+                            run.note_case({"doc": name, "order": vi, "seed": s, "hooks": hooks, "diagfree-only-in-some-order": True}, kind="order-diagnostics-differ")
+                            run.violation("oracle", {"note": "the document generates WITHOUT diagnostics in one order of components.schemas/paths and WITH diagnostics in another",
+                                                     "doc_name": name, "doc_a": vs[vi], "doc_b": vs[0], "seed_a": s, "seed_b": s, "hooks": hooks,
+                                                     "first_differing_file": next(iter(sorted(set(tree) ^ set(results[(di, s, hooks)][0][1]))), None),
+                                                     "diag": results[(di, s, hooks)][0][0]["diag"][:3]})
+                            break
+                    else:
+                        continue
+                    break
             big_lazy = any(len(m["lazy"]) >= 2 for m in base_res["models"])
             for s in ss:
                 for vi in range(len(results[(di, s, hooks)])):
